@@ -193,8 +193,9 @@ def theorems_of(props_file: str) -> list[str]:
 
 
 class Lean:
-    def __init__(self, prop: str, drivers: list[str], log):
+    def __init__(self, prop: str, drivers: list[str], log, extra_props: list[str] | None = None):
         self.prop, self.drivers, self.log = prop, drivers, log
+        self.extra_props = list(extra_props or [])   # further Props modules (e.g. QMatBridge) built and audited with this property
         self.broken: list[str] = []       # named ties that no longer check
         self.model_ok = False
         self.theorems: list[str] = []
@@ -222,7 +223,7 @@ class Lean:
         if rc != 0:
             self.broken.append("model build: " + first_error(out))
             self.log(tail(out, 30))
-        rc, out = _run(["lake", "build", props_mod], 3000, cwd=LEAN_DIR)
+        rc, out = _run(["lake", "build", props_mod] + [f"IrisVerif.Props.{x}" for x in self.extra_props], 3000, cwd=LEAN_DIR)
         self.props_ok = rc == 0
         if rc != 0:
             self.broken.append("theorem build: " + first_error(out))
@@ -234,12 +235,14 @@ class Lean:
         self.theorems = theorems_of(props_file)
         if not self.theorems:
             raise InternalError(f"no theorems found in {props_file}")
+        for x in self.extra_props:
+            self.theorems += theorems_of(os.path.join(LEAN_DIR, "IrisVerif", "Props", f"{x}.lean"))
         hits = grep_forbidden()
         if hits:
             self.broken.append("forbidden token in Lean sources: " + "; ".join(hits[:5]))
         if not self.props_ok:
             return
-        src = f"import IrisVerif.Props.{self.prop}\n" + "".join(f"#print axioms {t}\n" for t in self.theorems)
+        src = f"import IrisVerif.Props.{self.prop}\n" + "".join(f"import IrisVerif.Props.{x}\n" for x in self.extra_props) + "".join(f"#print axioms {t}\n" for t in self.theorems)
         d = tempfile.mkdtemp(prefix="verif-audit-")
         try:
             f = os.path.join(d, "Audit.lean")
@@ -266,7 +269,7 @@ class Lean:
                 self.discharged.append(t)
 
     def leanchecker(self):
-        mods = [f"IrisVerif.Props.{self.prop}"]
+        mods = [f"IrisVerif.Props.{self.prop}"] + [f"IrisVerif.Props.{x}" for x in self.extra_props]
         rc, out = _run(["lake", "env", "leanchecker"] + mods, 3000, cwd=LEAN_DIR)
         if rc != 0:
             self.broken.append("leanchecker: " + tail(out, 5))
@@ -441,7 +444,7 @@ def run_check(prop: str, tier: str, replay: str | None, module) -> int:
 
     level = getattr(module, "LEVEL", "proof")
     drivers = getattr(module, "DRIVERS", [prop])
-    lean = Lean(prop, drivers, log)
+    lean = Lean(prop, drivers, log, getattr(module, "EXTRA_PROPS", None))
     log(f"[{prop}] tier={tier} seed={seed}")
     lean.translate()
     lean.build()
